@@ -49,8 +49,69 @@ def rules_c17(ctx):
     # the segmentation driver never reads the input outside [0, n)
     out += p_segmentation.rule_in_range(ctx)
     out += rule_back_guard(ctx)
+    out += rule_check_order(ctx)
     out += rule_iter_invalidation(ctx)
     return out
+
+
+def rule_check_order(ctx, fns_override=None):
+    """An iterator that is compared with end() in a condition is dereferenced only after that comparison: in `a && b` (or
+    `a || b`) whose right operand tests x against end(), the left operand must not dereference x - the test exists because x may
+    be end(), and evaluated second it protects nothing (`precedes(it) && it != level.end()` reads *end()).  The inlined bodies
+    of helper closures count as part of the operand they are called in."""
+    import endguard
+    from ir import fmt_term
+    obs = []
+    n = 0
+    fns = fns_override if fns_override is not None else [f for u in ctx.all_units() for f in u.functions.values()
+                                                        if (f.tname.startswith('pgm::') or f.file.endswith('cpgm.cpp')) and f.body and f.cfg]
+    for f in fns:
+        if True:
+            for i in f.all_ids():
+                nd = f.n(i)
+                if nd['c'] != 'BinaryOperator' or nd.get('op') not in ('&&', '||') or len(nd['ch']) != 2:
+                    continue
+                left, right = nd['ch']
+                # end comparisons in the right operand (top-level conjuncts/disjuncts of it)
+                tested = []
+                st = [right]
+                while st:
+                    j = f.strip(st.pop())
+                    if not j:
+                        continue
+                    nj = f.n(j)
+                    if nj['c'] == 'BinaryOperator' and nj.get('op') in ('&&', '||'):
+                        st.extend(nj['ch'])
+                        continue
+                    ec = endguard.end_comparison(f, j)
+                    if ec:
+                        tested.append((ec[0], j))
+                if not tested:
+                    continue
+                n += 1
+                lnodes = list(f.walk(left))
+                # x already tested against end() inside the left operand: the right test is a repetition, not the guard
+                ltested = set()
+                for j in lnodes:
+                    if f.n(j)['c'] in ('BinaryOperator', 'CXXOperatorCallExpr'):
+                        ec = endguard.end_comparison(f, j)
+                        if ec:
+                            ltested.add(ec[0])
+                bad = None
+                for j in lnodes:
+                    derefs = endguard._element_effects(f, j)[0]
+                    for d_ in derefs:
+                        for (x, cj) in tested:
+                            if d_ == x and x not in ltested:
+                                bad = bad or (j, x)
+                if bad:
+                    obs.append(Ob('END-GUARD', f, bad[0], 'an iterator compared with end() in a condition is dereferenced only after that comparison',
+                                  f"`{fmt_term(bad[1])[:40]}` is dereferenced in the left operand of `{nd['op']}` at line {f.n(bad[0])['l']} and compared with end() only in the right operand "
+                                  f"(line {nd['l']}): when it is end() the dereference comes first", VIOLATED, arm='order'))
+    obs.append(Ob('END-GUARD', None, 0, 'an iterator compared with end() in a condition is dereferenced only after that comparison',
+                  f"{n} conditions whose right operand tests an iterator against end(): none dereferences it in the left operand" if not obs else f"{n} conditions examined",
+                  OK, arm='order-summary', detail={'subject': 'pgm::*', 'where': 'include/pgm'}))
+    return obs
 
 
 # front()/back() of a member container in a query: sites whose non-emptiness follows from a constructor invariant, confirmed
